@@ -55,7 +55,7 @@ Leaves == SeqSet(LeavesSeq)
 Depth1 == {Tag(TOpt(LeavesSeq[i])) : i \in 1..Len(LeavesSeq)}
      \cup ({Tag(TUnion(<<ULeavesSeq[i], ULeavesSeq[j]>>)) : i, j \in 1..Len(ULeavesSeq)} \ {Tag(TUnion(<<ULeavesSeq[i], ULeavesSeq[i]>>)) : i \in 1..Len(ULeavesSeq)})
      \cup SeqSet(<<TList(TStr), TList(TInt), TList(TFloat), TList(Color)>>)
-     \cup SeqSet(<<TSet(TInt), TSet(TStr), TTuple(<<TInt, TStr>>), TTuple(<<TStr, TFloat>>), TTupleE(TStr)>>)
+     \cup (IF Depth2 THEN SeqSet(<<TSet(TStr)>>) ELSE {}) \cup SeqSet(<<TSet(TInt), TTuple(<<TInt, TStr>>), TTuple(<<TStr, TFloat>>), TTupleE(TStr)>>)
      \cup SeqSet(<<TDict(TStr, TStr), TDict(TStr, TInt), TDict(TStr, Color), TDict(TInt, TStr)>>)
      \cup SeqSet(<<TOpt(DC1), TList(DC1), TDict(TStr, DC1)>>)
      \cup SeqSet(<<TUnion(<<Color, Color2>>), TUnion(<<Color2, Color>>), TUnion(<<TTupleE(Color2), TList(Color)>>)>>)
@@ -71,6 +71,13 @@ EnumK  == TEnum(<<<<"o","n">>, <<"n","u","l","l">>, <<"1","e","3">>>>)
 DCU    == TDC(<< <<<<"u">>, TUnion(<<TInt, TFloat>>), IntV(<<"1">>)>>, <<<<"s">>, TStr, Str(<<"x">>)>> >>)
 DC1Defaults == NSV(<< <<<<"a">>, IntV(<<"1">>)>>, <<<<"s">>, Str(<<"x">>)>>, <<<<"o">>, NullV>> >>)
 DCO    == TDC(<< <<<<"i">>, DC1, DC1Defaults>>, <<<<"n">>, TInt, IntV(<<"0">>)>> >>)             \* a dataclass inside a dataclass
+\* round 5: order-sensitive mappings (keys NOT in sorted order) and sets whose members are of several kinds
+ODSI   == TODict(TStr, TInt)
+SetIS  == TSet(TUnion(<<TInt, TStr>>))
+SetOI  == TSet(TOpt(TInt))
+DCS    == TDC(<< <<<<"o","d">>, ODSI, ODictV(<< >>)>>, <<<<"s","t">>, SetIS, SetV(<< >>)>> >>)
+Round5Quick == SeqSet(<<ODSI, TOpt(ODSI), SetIS, SetOI, TSetB, TOpt(DCS)>>)
+Round5Types == Round5Quick \cup SeqSet(<<TOpt(SetIS), TList(DCS), TODict(TStr, TStr), TDict(TStr, ODSI), TList(SetOI)>>)
 Round4Types == SeqSet(<<EnumK, TOpt(EnumK), TList(EnumK), TDict(TStr, EnumK), TAny, TList(TAny), TDict(TStr, TAny), TOpt(DCU), TOpt(DCO), TList(DCO), TDict(TStr, DCO)>>)
 \* the types of the json / jsonnet instances (quick): where the reading of the text matters
 ModeTypes == SeqSet(<<TStr, TInt, TFloat, Color, TOpt(TStr), TUnion(<<TInt, TFloat>>), TUnion(<<TStr, TFloat>>),
@@ -81,10 +88,11 @@ Depth2Types == SeqSet(<<TOpt(TList(TStr)), TOpt(TList(TInt)), TList(TOpt(TStr)),
                 TTuple(<<TOpt(TStr), TList(TInt)>>), TUnion(<<TStr, TInt, TNone>>), TUnion(<<TFloat, TStr, TNone>>), TDict(TInt, TList(TStr)),
                 TOpt(TSet(TStr)), TList(TOpt(DC1)), TUnion(<<TBool, TStr>>), TUnion(<<TDict(TStr, TInt), TStr>>), TTuple(<<DC1, TInt>>), TList(TDict(TStr, DC1))>>)
 Round4Quick == SeqSet(<<EnumK, TOpt(EnumK), TAny, TOpt(DCU), TOpt(DCO), TDict(TStr, DCO)>>)
-Types == IF OtherMode /\ ~Depth2 THEN ModeTypes ELSE Leaves \cup Depth1 \cup (IF Depth2 THEN Round4Types \cup Depth2Types ELSE Round4Quick)
+Types == IF OtherMode /\ ~Depth2 THEN ModeTypes ELSE Leaves \cup Depth1 \cup (IF Depth2 THEN Round4Types \cup Round5Types \cup Depth2Types ELSE Round4Quick \cup Round5Quick)
 
 \* ------------------------------------------------------------------ inputs of a type: the trees a config file could hold for it (tagged)
 Pairs(S) == {<<a, b>> : a, b \in S}
+IntOrStr(t, d) == IF t.c = "int" THEN IntV(d) ELSE Str(d)
 RECURSIVE InputsOf(_), Few(_)
 Few(t) == LET all == InputsOf(t) IN                                    \* a few representatives, for the elements of containers
   IF Cardinality(all) <= 4 THEN all
@@ -103,6 +111,21 @@ InputsOf(t) ==
     [] t.c = "enum"  -> {Tag(Str(t.p[i])) : i \in 1..Len(t.p)} \cup {Tag(Str(<<"a","b","c">>))}
     [] t.c = "literal" -> {Tag(t.p[i]) : i \in 1..Len(t.p)} \cup {Tag(Str(<<"z","z">>)), Tag(Str(<<"1">>))}
     [] t.c = "union" -> UNION {InputsOf(t.p[i]) : i \in 1..Len(t.p)}
+    [] t.c = "odict" ->                                                          \* keys in an order that no sorting produces, a hazard key, the sorted order
+         LET P(k1, a, k2, b) == DictV(<< <<Str(k1), IntOrStr(t.p[2], a)>>, <<Str(k2), IntOrStr(t.p[2], b)>> >>) IN
+         {Tag(DictV(<< >>)), Tag(DictV(<< <<Str(<<"b">>), IntOrStr(t.p[2], <<"1">>)>> >>)), Tag(P(<<"b">>, <<"1">>, <<"a">>, <<"2">>)), Tag(P(<<"a">>, <<"1">>, <<"b">>, <<"2">>)),
+          Tag(P(<<"b">>, <<"2">>, <<"1","e","3">>, <<"1">>)), Tag(P(<<"z">>, <<"1">>, <<"B">>, <<"1">>)),
+          Tag(DictV(<< <<Str(<<"c">>), IntOrStr(t.p[2], <<"3">>)>>, <<Str(<<"a">>), IntOrStr(t.p[2], <<"1">>)>>, <<Str(<<"b">>), IntOrStr(t.p[2], <<"2">>)>> >>))}
+    [] t.c = "setb" -> {Tag(ListV(<< >>)), Tag(ListV(<<IntV(<<"1">>), Str(<<"a">>)>>)), Tag(ListV(<<NullV, IntV(<<"3">>)>>)), Tag(ListV(<<Str(<<"b">>), Str(<<"a">>)>>)),
+                        Tag(ListV(<<Str(<<"1">>), IntV(<<"1">>), Flt(<<"1",".","5">>)>>))}
+    [] t.c = "set" /\ t.p[1].c = "union" ->                                       \* members of SEVERAL kinds: 1 and 'a', None and 3
+         {Tag(ListV(<< >>))} \cup {Tag(ListV(<<a[2]>>)) : a \in Few(t.p[1])}
+         \cup {Tag(ListV(<<q[1][2], q[2][2]>>)) : q \in {q \in Pairs(Few(t.p[1])) : q[1][2].k # q[2][2].k}}
+         \cup {Tag(ListV(<<IntV(<<"1">>), IF t.p[1].p[2].c = "none" THEN NullV ELSE Str(<<"a">>), IntV(<<"-","5">>)>>))}
+    [] t.c = "dc" /\ t.p[1][1] = <<"o","d">> ->
+         {Tag(DictV(<< >>)), Tag(DictV(<< <<Str(<<"o","d">>), DictV(<< <<Str(<<"b">>), IntV(<<"1">>)>>, <<Str(<<"a">>), IntV(<<"2">>)>> >>)>> >>)),
+          Tag(DictV(<< <<Str(<<"s","t">>), ListV(<<IntV(<<"1">>), Str(<<"a">>)>>)>> >>)),
+          Tag(DictV(<< <<Str(<<"o","d">>), DictV(<< <<Str(<<"b">>), IntV(<<"1">>)>>, <<Str(<<"a">>), IntV(<<"2">>)>> >>)>>, <<Str(<<"s","t">>), ListV(<<Str(<<"1">>), IntV(<<"1">>)>>)>> >>))}
     [] t.c \in {"list", "tuplee", "set"} ->
          {Tag(ListV(<< >>))} \cup {Tag(ListV(<<a[2]>>)) : a \in InputsOf(t.p[1])}
          \cup {Tag(ListV(<<q[1][2], q[2][2]>>)) : q \in {q \in Pairs(Few(t.p[1])) : t.c # "set" \/ q[1] # q[2]}}
